@@ -463,8 +463,14 @@ def delSigAux (pat : Bytes) : Nat → Bytes → Bytes → Nat → Bytes × Nat
       let chunk := wh.take op.n
       if chunk != pat then delSigAux pat f (wh.drop op.n) (res ++ chunk) cnt
       else delSigAux pat f (wh.drop op.n) res (cnt + 1)
+/-- the push opcode `delSig` places in front of the signature (`switch { case len(sig) < OP_PUSHDATA1 … }`) -/
+def sigPushPrefix (n : Nat) : Bytes :=
+  if n < 0x4c then [UInt8.ofNat n]
+  else if n ≤ 0xff then [0x4c, UInt8.ofNat n]
+  else if n ≤ 0xffff then [0x4d, UInt8.ofNat n, UInt8.ofNat (n >>> 8)]
+  else [0x4e, UInt8.ofNat n, UInt8.ofNat (n >>> 8), UInt8.ofNat (n >>> 16), UInt8.ofNat (n >>> 24)]
 def delSig (wh sig : Bytes) : Bytes × Nat :=
-  delSigAux (putVlen sig.length ++ sig) wh.length wh [] 0
+  delSigAux (sigPushPrefix sig.length ++ sig) wh.length wh [] 0
 
 /-- `lexicographical_compare(d1, d2)` -/
 def lexLt : Bytes → Bytes → Bool
